@@ -936,8 +936,10 @@ class GroupBy:
         # Now combine the results for each value in value_list to get one result per value
         individual_results = []
         # Some functions like 'first' and 'last' don't have nan versions
-        if func_name in ("size", "count", "sum_squares"):
-            reducer = numba_funcs.ScalarFuncs.nansum
+        if func_name in ("size", "count", "sum", "sum_squares"):
+            # a chunk's partial sum is data wherever its count is positive (empty partials
+            # are skipped through y_counts): add it even if it is NaN (inf - inf)
+            reducer = numba_funcs.ScalarFuncs.sum
         elif hasattr(numba_funcs.ScalarFuncs, f"nan{func_name}"):
             reducer = getattr(numba_funcs.ScalarFuncs, f"nan{func_name}")
         else:
